@@ -171,6 +171,57 @@ def truth_tables(run):
     expect(run, "[tick(1, 1), tick(2, 2)][tick(3, 0)]", [1, 2, 3])
 
 
+def repeated_calls(run):
+    """A closure's body is evaluated at every call (n calls = n evaluations, also with no arguments), for def'd
+    functions and for delegates; a yaqlized host method gets its positional arguments first, then the keyword
+    arguments, each once, all before the body."""
+    import yaql
+    from yaql import yaqlization
+    expect(run, "def(f, tick(7, 1)) -> [f(), f(), f()]", [7, 7, 7])
+    expect(run, "def(f, tick(7, 1)) -> f() + f()", [7, 7])
+    expect(run, "def(f, tick(7, $)) -> [f(), f(1), f(), f(2)]", [7, 7, 7, 7])
+    expect(run, "def(f, tick(1, 2)) -> def(g, tick(2, f() + f())) -> [g(), g()]", [1, 1, 2, 1, 1, 2])
+    expect(run, "[1, 2].select(def(f, tick(1, 5)) -> f() + f()).toList()", [1, 1, 1, 1])
+    expect(run, "let(x => 1) -> def(f, tick(3, $x)) -> [f(), let(x => 2) -> f(), f()]", [3, 3, 3])
+    eng = yaql.YaqlFactory(allow_delegates=True).create()
+    log = []
+
+    class Svc(object):
+        def combine(self, *args, **kwargs):
+            log.append("body")
+            return [list(args), sorted(kwargs.items())]
+    svc = yaqlization.yaqlize(Svc())
+
+    def go(text, data=None):
+        del log[:]
+        ctx = yaql.create_context(delegates=True)
+        ctx.register_function(lambda id, value: (log.append(id), value)[1], name="tick")
+        try:
+            r = ("ok", eng(text).evaluate(data=data, context=ctx))
+        except Exception as e:
+            r = ("err", type(e).__name__)
+        return list(log), r
+    rows = [("let(f => lambda(tick(7, 1))) -> [$f(), $f(), $f()]", None, [7, 7, 7], ("ok", [1, 1, 1])),
+            ("let(f => lambda(tick(7, $))) -> [$f(), $f(2)]", None, [7, 7], None),
+            ("[lambda(tick(1, 1))(), lambda(tick(2, 2))()]", None, [1, 2], ("ok", [1, 2])),
+            ("let(f => lambda(tick(7, 1))) -> [1, 2].select($f()).toList()", None, [7, 7], ("ok", [1, 1])),
+            ("$.combine(tick(1, 10), tick(2, 20))", svc, [1, 2, "body"], ("ok", [[10, 20], []])),
+            ("$.combine(tick(1, 10), k => tick(2, 20))", svc, [1, 2, "body"], ("ok", [[10], [["k", 20]]])),
+            ("$.combine(tick(1, 1), tick(2, 2), a => tick(3, 3), b => tick(4, 4))", svc, [1, 2, 3, 4, "body"], None),
+            ("$.combine(tick(1, 1), a => tick(2, 1 / 0), b => tick(4, 4))", svc, [1], ("err", "ZeroDivisionError")),
+            ("$.combine(tick(1, 1 / 0), a => tick(2, 1))", svc, [], ("err", "ZeroDivisionError")),
+            ("$.combine(tick(1, 1), tick(2, [1][3]), a => tick(3, 1))", svc, [1], ("err", "IndexError"))]
+    for text, data, want_log, want_r in rows:
+        got_log, got_r = go(text, data)
+        run.case(("repeat", text), nontrivial=True)
+        run.count("repeated_call_row")
+        if got_log != want_log or (want_r is not None and got_r != want_r):
+            run.fail("violation", "a closure / host method call evaluated its body or its arguments a different number of times, "
+                                  "or in a different order, than the call requires",
+                     {"program": text, "observed_log": got_log, "required_log": want_log, "observed": repr(got_r), "required": repr(want_r)})
+            return
+
+
 CORPUS = ["1", "2", "0", "'ab'", "'a'", "[1, 2]", "[3]", "{a => 1}", "true", "null", "[[1, 2], [3]]"]
 
 
@@ -280,11 +331,29 @@ def lazy_keyword_sweep(run):
 def oracle(run, deep):
     truth_tables(run)
     lazy_keyword_sweep(run)
+    repeated_calls(run)
     registry_sweep(run, deep)
+
+
+class _Probe:
+    def __init__(self):
+        self.failed = False
+        self.cov = {}
+
+    def case(self, *a, **k): pass
+    def count(self, *a, **k): pass
+    def note(self, *a, **k): pass
+
+    def fail(self, *a, **k):
+        self.failed = True
 
 
 def replay(run, data):
     d = data.get("data", {})
+    if "required" in d and "required_log" in d:
+        probe = _Probe()
+        repeated_calls(probe)
+        return not probe.failed
     if "required_log" in d:
         log, r = ec.run_real(d["program"], d.get("data"))
         return log == d["required_log"] and r[0] != "err"
